@@ -131,7 +131,8 @@ func genBasePlaceholderName(node ast.Node, defaultName string) string {
 		return genBasePlaceholderNameFromExpr(part.Arg, defaultName)
 	case *ast.MsgHtmlTagNode:
 		return genBasePlaceholderNameFromHtml(part)
-	case *ast.DataRefNode:
+	case *ast.DataRefNode, *ast.GlobalNode:
+		// (the value of a {plural})
 		return genBasePlaceholderNameFromExpr(node, defaultName)
 	}
 	return defaultName
